@@ -189,6 +189,10 @@ func (e *CEnv) eval(x CExpr) Term {
 				return Term{S: arr, T: types.NewArray(v.T.Underlying().(*types.Slice).Elem(), 0)}
 			}
 		}
+		if _, ok := v.T.Underlying().(*types.Map); ok && n.Sel == "isnil" {
+			ms := e.reg().SortOf(v.T)
+			return mkBool("(isnil_" + ms + " " + v.S + ")")
+		}
 		cfail("no field %s in %s", n.Sel, types.TypeString(v.T, nil))
 	case *CIndex:
 		v := e.autoDeref(e.eval(n.X))
